@@ -17,6 +17,10 @@ package main
 //                        "T <offset> <digest restored from the directory with the log cut there>"
 //   RW <conn>            REWRITEAOF the same way (R, I..., L, Y); the images of the torn preamble write
 //                        are "IP <offset> <digest>" (every offset when the preamble is short, else 16)
+//                        since the repair of the rewrite: "IP 0" is a half-written preamble.bin.tmp next to the
+//                        old files, "IP <offset>" the new preamble with the log's new header cut at that byte
+//   RWK <conn> <point>   REWRITEAOF that dies at the failpoint (the point function panics there; no file
+//                        operation follows): -> "R !"; the script goes on with K and O on what is left
 //   RWC <conn> <first:W|R> <pw> <pr> <hex>...   a write command and a REWRITEAOF on two goroutines; the
 //                        first one runs until its point and is parked there, then the second runs until
 //                        its point (or blocks, or finishes); the mid image is restored; then the first
@@ -91,6 +95,7 @@ func encode(argv []string) []byte {
 
 func (sc *script) logPath() string { return filepath.Join(sc.root, "live", "aof", "log.aof") }
 func (sc *script) prePath() string { return filepath.Join(sc.root, "live", "aof", "preamble.bin") }
+func (sc *script) tmpPath() string { return sc.prePath() + ".tmp" }
 
 func readFile(p string) []byte {
 	b, err := os.ReadFile(p)
@@ -145,10 +150,11 @@ type image struct {
 	label string
 	logb  []byte
 	preb  []byte
+	tmpb  []byte // preamble.bin.tmp (never read by a restore)
 }
 
 func (sc *script) snap(label string) image {
-	return image{label: label, logb: readFile(sc.logPath()), preb: readFile(sc.prePath())}
+	return image{label: label, logb: readFile(sc.logPath()), preb: readFile(sc.prePath()), tmpb: readFile(sc.tmpPath())}
 }
 
 var imgMu sync.Mutex
@@ -169,6 +175,9 @@ func (sc *script) restoreImage(im image) string {
 	}
 	if im.preb != nil {
 		os.WriteFile(filepath.Join(dir, "aof", "preamble.bin"), im.preb, 0o644)
+	}
+	if im.tmpb != nil {
+		os.WriteFile(filepath.Join(dir, "aof", "preamble.bin.tmp"), im.tmpb, 0o644)
 	}
 	hookOff(true)
 	defer hookOff(false)
@@ -259,6 +268,7 @@ var imagePoints = map[string]bool{
 	"pre.create.after_write": true, "pre.create.after_sync": true, "rewrite.after_preamble": true,
 	"log.trunc.after_truncate": true, "log.trunc.after_header": true, "log.trunc.after_sync": true,
 	"rewrite.after_truncate": true,
+	"pre.create.after_create": true, "pre.create.after_rename": true, "log.trunc.after_generation": true,
 }
 
 // runWithImages runs one raw command on the live instance, taking an image at every failpoint.
@@ -424,7 +434,7 @@ func main() {
 			f := strings.Fields(line)
 			if sc != nil && sc.live == nil {
 				switch f[0] {
-				case "C", "RW", "RWC", "D":
+				case "C", "RW", "RWC", "RWK", "D":
 					if f[0] != "D" {
 						fmt.Fprintf(out, "BAD %s\n", line)
 					}
@@ -503,19 +513,31 @@ func main() {
 				for _, im := range images {
 					fmt.Fprintf(out, "I %s %s\n", im.label, sc.restoreImage(im))
 				}
-				// torn write of the preamble: the log is still whole at that time
-				_ = preBefore
 				newPre := readFile(sc.prePath())
+				newLog := readFile(sc.logPath())
 				if strings.HasPrefix(r, "+") && sc.images {
-					step := 1
-					if len(newPre) > 48 {
-						step = len(newPre)/16 + 1
-					}
-					for off := 1; off < len(newPre); off += step {
-						fmt.Fprintf(out, "IP %d %s\n", off, sc.restoreImage(image{logb: logBefore, preb: newPre[:off]}))
+					// a half-written temporary file next to the old preamble and the old log
+					fmt.Fprintf(out, "IP 0 %s\n", sc.restoreImage(image{logb: logBefore, preb: preBefore, tmpb: newPre[:len(newPre)/2]}))
+					// the new preamble with the log's new header cut at every byte
+					for off := 1; off < len(newLog); off++ {
+						fmt.Fprintf(out, "IP %d %s\n", off, sc.restoreImage(image{logb: newLog[:off], preb: newPre}))
 					}
 				}
 				sc.emitFiles()
+			case "RWK":
+				id, _ := strconv.Atoi(f[1])
+				ctl.mu.Lock()
+				ctl.record = func(name string, db int, data []byte) {
+					if name == f[2] {
+						panic("verif: process dies at " + name)
+					}
+				}
+				ctl.mu.Unlock()
+				res, herr, pan := sc.live.db.VerifHandle(sc.live.conn(id+100), encode([]string{"REWRITEAOF"}))
+				ctl.mu.Lock()
+				ctl.record = nil
+				ctl.mu.Unlock()
+				fmt.Fprintf(out, "R %s\n", replyText(res, herr, pan))
 			case "RWC":
 				id, _ := strconv.Atoi(f[1])
 				argv := make([]string, len(f)-5)
